@@ -156,7 +156,7 @@ def run_paper(desc):
         snaps, lines_read, mids = {}, {}, []
         for j in range(nm):
             mid = "1.28%07d" % (desc["idx"] * 10 + j)
-            d = G.Director(rng, mid, {"market_types": ("WIN",), "winners": (1,), "n_runners": (2, 4), "close": False, "p_removal": 0.0, "p_inplay": 0.3, "depth": (2, 3), "p_bsp": 0.0, "n_steps": (6, 14)})
+            d = G.Director(rng, mid, {"market_types": ("WIN",), "winners": (1,), "n_runners": (2, 4), "close": False, "p_removal": 0.0, "p_inplay": 0.3, "depth": (2, 3), "p_bsp": 0.0, "n_pre": (4, 10), "n_inplay": (0, 5)})
             mf = d.run()
             act = d.active_keys()
             rng.shuffle(act)
